@@ -35,6 +35,7 @@ def parseHandle? (s : String) : Option Nat :=
 def parseItem? (s : String) : Option Item :=
   match s.toList with
   | 'i' :: r => (String.ofList r).toInt?.map Item.int
+  | 'j' :: r => (String.ofList r).toInt?.map Item.int   -- a numpy integer label: equal to the int item
   | 's' :: r => some (Item.str (String.ofList r))
   | _ => none
 
